@@ -21,8 +21,8 @@ CONFIGS = {
     "C03": {"quick": ["GenG1_cfg_q.cfg"], "thorough": ["GenG1_cfg_t.cfg", "GenG1_cfg_arm64.cfg"]},
     "C08": {"quick": ["GenG1_cfi_q.cfg"], "thorough": ["GenG1_cfi_t.cfg"]},
     "C09": {"quick": ["GenG1_batch_q.cfg"], "thorough": ["GenG1_batch_t.cfg", "GenG1_cfg_q.cfg"]},
-    "C05": {"quick": ["GenG1_syms_q.cfg", "GenG1_cfg_q.cfg"],
-            "thorough": ["GenG1_syms_t.cfg", "GenG1_cfg_t.cfg", "GenG1_ann_q.cfg"]},
+    "C05": {"quick": ["GenG1_syms_q.cfg", "GenG1_cfg_q.cfg", "GenG1_align_q.cfg"],
+            "thorough": ["GenG1_syms_t.cfg", "GenG1_cfg_t.cfg", "GenG1_ann_q.cfg", "GenG1_align_q.cfg"]},
 }
 SAMPLE = {"quick": 3000, "thorough": 60000}
 RULES = {
